@@ -36,7 +36,7 @@ def decompose(y_obs: npt.ArrayLike, y_pred: npt.ArrayLike, weights: Optional[npt
             msg = HOLE('msg5')
             raise ValueError(msg)
     if functional == 'mean':
-        iso = IsotonicRegression_skl(y_min=None, y_max=None)
+        iso = IsotonicRegression_skl(y_min=None, y_max=None, out_of_bounds="clip")
         marginal = np.average(y_o, weights=w)
     else:
         iso = IsotonicRegression(functional=functional, level=level)
